@@ -990,12 +990,14 @@ class Interp:
                 if isinstance(a, (bytes, str)) or isinstance(b, (bytes, str)) or \
                         (isinstance(a, App) and a.op == 'cat') or (isinstance(b, App) and b.op == 'cat') or \
                         getattr(a, 'typ', None) in ('bytes', 'str') or getattr(b, 'typ', None) in ('bytes', 'str') or \
-                        (isinstance(a, App) and a.op.startswith('call:')) or (isinstance(b, App) and b.op.startswith('call:')):
+                        (isinstance(a, App) and a.op.startswith('call:')) or (isinstance(b, App) and b.op.startswith('call:')) or \
+                        (isinstance(a, App) and a.op in self.BYTES_OPS) or (isinstance(b, App) and b.op in self.BYTES_OPS):
                     return cat(a, b)
         if name == 'Mod' and isinstance(a, (str, bytes)):
             return App('fmt%', a, b)
         return App('op:' + name, a, b)
 
+    BYTES_OPS = {'mcall:to_bytes', 'mcall:encode', 'mcall:digest', 'ext', 'raw', 'mcall:hex', 'mcall:decode', 'fmt'}
     BOOL_OPS = {'==', '<', '<=', '>', '>=', 'in', 'is', 'not', 'isinstance', 'eq'}
     CMP = {'Eq': '==', 'NotEq': '!=', 'Lt': '<', 'LtE': '<=', 'Gt': '>', 'GtE': '>=', 'In': 'in', 'NotIn': 'not in',
            'Is': 'is', 'IsNot': 'is not'}
@@ -1328,6 +1330,8 @@ class Interp:
         if isinstance(callee, BoundMethod):
             return self.call_method(callee.recv, callee.name, args, kwargs, node)
         if isinstance(callee, ModRef):
+            if callee.name == 'typing.cast' and len(args) == 2:
+                return args[1]
             return App('call:' + callee.name, *args, *[App('kw', k, v) for k, v in kwargs.items()])
         if isinstance(callee, App) and callee.op == 'attr':
             return App('mcall:' + callee.args[1], callee.args[0], *args, *[App('kw', k, v) for k, v in kwargs.items()])
